@@ -186,7 +186,13 @@ func ReadResponse(r *bufio.Reader) (*Response, error) {
 	if cl > 0 {
 		// 读取 n 字节的字串Body
 		body := make([]byte, cl)
-		_, err = io.ReadFull(r, body)
+		if _, err = io.ReadFull(r, body); err != nil {
+			// Body 不完整（连接提前结束），不能返回用 0 填充的消息
+			if err == io.EOF {
+				err = io.ErrUnexpectedEOF
+			}
+			return nil, err
+		}
 		resp.Body = string(body)
 	}
 	return resp, nil
